@@ -1260,6 +1260,16 @@ func suiteC08(c *Ctx) {
 			c.emit(Case{"refused-literals", []Step{smlStep(a), smlStep(b), smlStep(cc), lexStep(a), lexStep(b)}, false})
 		}
 	}
+	// a comment between the end of an item and what follows it: the same diagnostics as without the comment,
+	// whatever follows (the terminator, or something that is not one)
+	for _, junk := range []string{"", "...", `"a b"`, "5x", ">", "h->e", "W", "0x1F", "<U1 1>", "S2F2"} {
+		for _, head := range []string{"S1F1 <A \"x\">", "S1F1 W H->E n <L <U1 1> <L>>", "S9F9 <L>"} {
+			a := head + " " + junk + " ."
+			b := head + " // note\n" + junk + " // end\n."
+			cc := strings.ToUpper(head[:4]) + head[4:] + "\t" + junk + "\r\n."
+			c.emit(Case{"layouts", []Step{smlStep(a), smlStep(b), smlStep(cc), lexStep(a), lexStep(b)}, false})
+		}
+	}
 	for i := 0; i < n; i++ {
 		sg := &smlGen{g: g}
 		var toks []string
